@@ -8,6 +8,7 @@ package interp
 import (
 	"fmt"
 	"go/types"
+	"os"
 	"runtime"
 	"sort"
 	"strconv"
@@ -17,6 +18,8 @@ import (
 
 	"golang.org/x/tools/go/ssa"
 )
+
+var debugUnsupported = os.Getenv("GOSYM_DEBUG_UNSUPPORTED") != ""
 
 type abortKind int
 
@@ -166,8 +169,10 @@ type worker struct {
 	roMaps     map[*omap]bool
 	roLabel    string
 	allocLimit int64
-	permute    bool
+	permute    int // 0 off, 1 every map iteration permuted (product), 2 exactly one iteration permuted (sum)
+	permDone   bool
 	permUsed   bool
+	cur        *frame // innermost interpreted frame (diagnostics)
 	noPanicDepth int
 
 	// local stats merged at the end
@@ -413,7 +418,8 @@ func (w *worker) resetPath(prefix []int64) {
 	w.roActive = false
 	w.roCells, w.roMaps = nil, nil
 	w.allocLimit = 0
-	w.permute = false
+	w.permute = 0
+	w.permDone = false
 	w.permUsed = false
 	w.noPanicDepth = 0
 	w.ptrIDs = nil
@@ -543,7 +549,11 @@ func (w *worker) handleTop(r interface{}) {
 		case abBound:
 			w.st.BoundHits[r.msg]++
 		case abUnsupported:
-			w.st.Unsupported[r.msg]++
+			msg := r.msg
+			if debugUnsupported && w.cur != nil {
+				msg += " @ " + strings.Join(w.stack(w.cur), " < ")
+			}
+			w.st.Unsupported[msg]++
 		case abEngine:
 			w.st.EngineErrors[r.msg]++
 		case abStop, abTarget:
@@ -789,23 +799,54 @@ const maxConcretize = 64
 
 // concretize enumerates the feasible values of t and forks over them.
 func (w *worker) concretize(t *Term) uint64 {
+	v, _ := w.concretizeLimit(t, maxConcretize, false)
+	return v
+}
+
+// concretizeLimit enumerates up to limit feasible values of t and forks over
+// them. With soft set, more than limit values is not an error: nothing is
+// decided and ok is false.
+func (w *worker) concretizeLimit(t *Term, limit int, soft bool) (val uint64, ok bool) {
 	if t.isConst() {
-		return t.k
+		return t.k, true
 	}
 	if w.pos < len(w.prefix) {
 		d := uint64(w.prefix[w.pos])
+		if soft && int64(d) == softNone {
+			w.pos++
+			w.trace = append(w.trace, softNone)
+			return 0, false
+		}
 		w.pos++
 		w.trace = append(w.trace, int64(d))
 		w.addPC(tEq(t, mkConst(t.sort, d)))
-		return d
+		return d, true
 	}
 	w.st.Decisions++
 	var vals []uint64
 	block := tTrue
-	probe := t
+	if soft && t.sort.isBV() && t.sort.width() > 8 {
+		// cheap pre-test: a value far away from a first model means "too many values"
+		// (staying symbolic is always sound)
+		if res, m := w.solver.CheckWithModel(nil, []*Term{t}); res == Sat {
+			v0 := mkConst(t.sort, m[0])
+			lim := mkConst(t.sort, uint64(limit))
+			far := tAnd(tBVCmp(OpBVULt, lim, tBV(OpBVSub, t, v0)), tBVCmp(OpBVULt, lim, tBV(OpBVSub, v0, t)))
+			if w.solver.Check(far) != Unsat {
+				w.trace = append(w.trace, softNone)
+				w.pos++
+				return 0, false
+			}
+		}
+	}
 	for {
-		res, m := w.solver.CheckWithModel(block, []*Term{probe})
+		res, m := w.solver.CheckWithModel(block, []*Term{t})
 		if res == Unknown {
+			if soft {
+				w.trace = append(w.trace, softNone)
+				w.pos++
+				return 0, false
+			}
 			w.unsupported("solver unknown while concretising a symbolic value")
 		}
 		if res == Unsat {
@@ -813,10 +854,16 @@ func (w *worker) concretize(t *Term) uint64 {
 		}
 		v := m[0]
 		vals = append(vals, v)
-		if len(vals) > maxConcretize {
-			w.unsupported("symbolic value with more than 64 feasible concrete values where a concrete one is required")
+		if len(vals) > limit {
+			if soft {
+				// recorded as a decision so that re-execution takes the same route
+				w.trace = append(w.trace, softNone)
+				w.pos++
+				return 0, false
+			}
+			w.unsupported(fmt.Sprintf("symbolic value with more than %d feasible concrete values where a concrete one is required", limit))
 		}
-		block = tAnd(block, tNot(tEq(probe, mkConst(t.sort, v))))
+		block = tAnd(block, tNot(tEq(t, mkConst(t.sort, v))))
 	}
 	if len(vals) == 0 {
 		w.engineError("concretize: no feasible value")
@@ -828,8 +875,13 @@ func (w *worker) concretize(t *Term) uint64 {
 	w.trace = append(w.trace, int64(vals[0]))
 	w.pos++
 	w.addPC(tEq(t, mkConst(t.sort, vals[0])))
-	return vals[0]
+	return vals[0], true
 }
+
+// softNone marks "too many values, left symbolic" in the decision vector. It
+// cannot collide with an enumerated value on the same position, because a
+// position either enumerates or does not.
+const softNone = int64(-0x5eed5eed5eed)
 
 func (w *worker) concrete(v value) value {
 	if s, ok := v.(sym); ok {
@@ -1122,8 +1174,15 @@ func (w *worker) reach(label string) {
 
 // orderMapEntries applies the engine's map iteration policy.
 func (w *worker) orderMapEntries(es []omapEntry) []omapEntry {
-	if !w.permute || len(es) < 2 {
+	if w.permute == 0 || len(es) < 2 {
 		return es
+	}
+	if w.permute == 2 {
+		// single-site mode: this iteration is the permuted one, or a later one is
+		if w.permDone || w.choose(2) == 0 {
+			return es
+		}
+		w.permDone = true
 	}
 	w.permUsed = true
 	// choose a permutation: n-way choice for the first, n-1 for the second, ...
